@@ -83,6 +83,10 @@ RULE = ("Hypothesis RuleBasedStateMachine (20/30 steps) parameterised by the gro
         "lists returned by the getters of a group before it was left are unchanged when it is used again; finish() always "
         "adds: second group used (add, connect_pipelines with defaults, broadcasts, rename, observe), first group re-checked "
         "and used again, the same calls twice in a row. "
+        "Held values: a scalar is, with probability 3/8, the value currently held by the first / last / a middle member of a "
+        "group in which not all members hold it (after per-member sequences, added default-built members, or the `edit` rule "
+        "= direct member.attr = v); a sequence is, with probability 1/4, the members' current values except one element; "
+        "finish() does this for every attribute (first member's value; last member edited directly, then its value). "
         "Non-trivial: a history in which a sequence with at least two different values was assigned element-wise to a "
         "group of size >= 2 and read back, and at least one wrong-length assignment was attempted after a successful "
         "assignment; for BolometerCamera (no broadcast attributes): size >= 2 at an observe(), a by-name lookup and a "
@@ -313,7 +317,7 @@ class Hist:
         self.props = {}
         # evidence
         self.sets, self.wrongs, self.kinds, self.idx, self.lab = set(), set(), set(), set(), set()   # sets: (attr, "scalar"|"seq")
-        self.rej, self.sizes = set(), set()
+        self.rej, self.sizes, self.held_sets = set(), set(), set()
         self.n_changes = 0
         self.nt_distinct = self.nt_wrong_after = False
         self.cam_observed2 = self.cam_named = self.rejected = False
@@ -680,6 +684,9 @@ class Hist:
         # function of the attribute index), every rejected kind is offered once, and the member list is once assigned as a
         # list that the caller edits afterwards, followed by an add, a broadcast and an observe - so that the coverage
         # demanded by REQUIRED_LABELS does not depend on the luck of the draw
+        while self.attrs and len(self.members) < 2:
+            self.do_member_add(dict(self._SYNTH_MEMBER, k=0, name=len(self.members)))     # default-built member
+            self.invariant()
         for idx, attr in enumerate(list(self.attrs)):
             synth = {"a": idx, "kind": ("list", "tuple", "ndarray")[idx % 3], "u": [((idx * 7 + j * 3) % 10) / 10.0 + 0.03 for j in range(8)],
                      "k": [(idx + 2 * j) % 11 for j in range(8)]}
@@ -692,6 +699,8 @@ class Hist:
             if attr not in self.wrongs:
                 self.do_assign_wrong(dict(synth, kind="list"))
                 self.invariant()
+            if attr not in self.held_sets:
+                self._sweep_held(attr)
         for i, kind in enumerate(rejected_kinds(self.gname)):
             if kind not in self.rej:
                 self.do_member_add_wrong(dict(self._SYNTH_MEMBER, v=i, k=i))
@@ -709,6 +718,8 @@ class Hist:
             ctx.label("wrong:%s.%s" % (self.gname, a))
         for kk in sorted(self.rej):
             ctx.label("reject:%s.%s" % (self.gname, kk))
+        for a in sorted(self.held_sets):
+            ctx.label("heldscalar:%s.%s" % (self.gname, a))
         ctx.label(*sorted("kind:" + k for k in self.kinds))
         ctx.label(*sorted("index:" + k for k in self.idx))
         ctx.label(*sorted("size:%d" % x for x in self.sizes))        # every group size that was checked in this history
@@ -894,6 +905,95 @@ class Hist:
                     return c
         return v
 
+    def _held_value(self, attr, j):
+        """an assignable value equal to what member j currently holds for `attr` (None: no scalar form / nothing held)."""
+        kind, mm = SPECS[attr].kind, self.mm[j]
+        if kind in ("int", "float", "bool", "engine"):
+            return mm.get(attr)
+        if kind == "targets":
+            return list(mm[attr]) if attr in mm else None
+        if kind == "point":
+            return Point3D(*mm[attr]) if attr in mm else None
+        if kind == "vector":
+            return Vector3D(*mm[attr]) if attr in mm else None
+        if kind == "ppflag":
+            flags = [x for x in self._expected(j, attr) if x is not None]
+            return flags[0] if flags else None
+        return None
+
+    def _holds(self, i, attr, v):
+        """does member i already hold the scalar v ?"""
+        kind = SPECS[attr].kind
+        if kind == "ppflag":
+            return all(x == v for x in self._expected(i, attr) if x is not None)
+        if kind == "targets":
+            return self._same(kind, self.mm[i][attr], tuple(v))
+        if kind in ("point", "vector"):
+            return self._same(kind, v, self.mm[i][attr])
+        return self._same(kind, self.mm[i][attr], v)
+
+    def _held_scalar(self, attr, which):
+        """-> (value held by the first / last / a middle member, position label) if it is valid for every member and NOT held
+        by all of them, else None"""
+        n = len(self.mm)
+        if n < 2 or not SPECS[attr].scalar_ok:
+            return None
+        order = {0: [0, n - 1, n // 2], 1: [n - 1, 0, n // 2], 2: [n // 2, 0, n - 1]}[which % 3]
+        for j in order:
+            v = self._held_value(attr, j)
+            if v is None or not all(valid_for(attr, v, m) for m in self.mm):
+                continue
+            if all(self._holds(i, attr, v) for i in range(n)):
+                continue
+            return v, ("first" if j == 0 else ("last" if j == n - 1 else "middle"))
+        return None
+
+    def _assign_scalar_value(self, attr, v, what):
+        """group.attr = v (single value) on the real group and on the model"""
+        with self.ctx.cut("assign-scalar:" + what):
+            setattr(self.group, attr, v)
+        for j in range(len(self.mm)):
+            self._apply(j, attr, v)
+        self.sets.add((attr, "scalar"))
+        self.kinds.add("scalar")
+
+    _PARTNER = {"spectral_bins": "spectral_rays", "spectral_rays": "spectral_bins",
+                "max_wavelength": "min_wavelength", "min_wavelength": "max_wavelength"}
+
+    def _relax(self, attr):
+        """sets the attribute that constrains `attr` to one value for which every value currently held for `attr` is valid."""
+        other = self._PARTNER.get(attr)
+        if other is None or other not in self.attrs or not self.mm:
+            return
+        cur = [m[attr] for m in self.mm]
+        v = {"spectral_bins": 1, "spectral_rays": max(cur), "max_wavelength": 0.5 * min(cur), "min_wavelength": 2.0 * max(cur)}[attr]
+        if all(valid_for(other, v, m) for m in self.mm):
+            self._assign_scalar_value(other, v, "%s.%s" % (self.gname, other))
+            self.invariant()
+
+    def _sweep_held(self, attr):
+        """heterogeneous group -> the value of the first member as scalar; last member edited directly -> its value as scalar"""
+        what = "%s.%s" % (self.gname, attr)
+        n = len(self.mm)
+        if n < 2 or not SPECS[attr].scalar_ok:
+            return
+        self._relax(attr)
+        for which in (0, 1):
+            got = self._held_scalar(attr, which)
+            if got is None or got[1] != ("first", "last")[which]:
+                # make the group heterogeneous by a direct edit of the last member
+                j = n - 1
+                self.do_edit({"a": self.attrs.index(attr), "u": [0.83 - 0.11 * which] * 8, "k": [5, 5, 5, j, 5, 5, 5, 5]})
+                self.invariant()
+                got = self._held_scalar(attr, which)
+            if got is None:
+                continue
+            v, pos = got
+            self._assign_scalar_value(attr, v, what)
+            self.held_sets.add(attr)
+            self.lab.add("heldscalar:" + pos)
+            self.invariant()
+
     def _elements(self, attr, u, k, L, form):
         """the L element values of a sequence for `attr` (element j is valid for member j)."""
         n = len(self.mm)
@@ -1069,7 +1169,13 @@ class Hist:
         what = "%s.%s" % (self.gname, attr)
         if kind == "scalar":
             form = k[2] % 4            # 0, 3: native Python value, 1: numpy scalar, 2: Python int for a float attribute
-            v = self._value(attr, u[0], k[0], self.mm, integral=(form == 2))
+            held = self._held_scalar(attr, k[3]) if k[0] >= 5 else None     # a value some, but not all, members already hold
+            if held is not None:
+                v = held[0]
+                self.held_sets.add(attr)
+                self.lab.add("heldscalar:" + held[1])
+            else:
+                v = self._value(attr, u[0], k[0], self.mm, integral=(form == 2))
             model_v = v
             if spec.kind == "targets" and k[1] % 2:
                 v = tuple(v)
@@ -1088,6 +1194,15 @@ class Hist:
         else:
             form = self._FORMS[k[6] % 8]
             vals = self._elements(attr, u, k, n, form)
+            if k[4] >= 6 and n >= 2 and spec.kind != "ppflag":
+                # the members' current values, except for one element
+                e = k[3] % n
+                cur = [self._held_value(attr, j) if spec.scalar_ok else
+                       (self.mm[j]["names"] if attr == "names" else list(self.mm[j]["pipelines"])) for j in range(n)]
+                if all(c is not None for c in cur):
+                    vals = [vals[j] if j == e else cur[j] for j in range(n)]
+                    form = "plain"
+                    self.lab.add("seq:current_except_one")
             seq, vals = self._container(attr, vals, kind, form)
             if spec.kind == "float" and any(isinstance(x, int) for x in vals):
                 self.lab.add("form:int_for_float")
@@ -1139,6 +1254,23 @@ class Hist:
         self.lab.add("wrong_len:" + ("0" if L == 0 else ("n-1" if L == n - 1 else "n+1")))
         if self.n_changes:
             self.nt_wrong_after = True
+
+    def pre_edit(self):
+        return self.group is None or (bool(self.attrs) and len(self.members) >= 1)
+
+    def do_edit(self, a):
+        """the caller edits one member directly (member.attr = v); the group must report it and later broadcasts must
+        still reach every member"""
+        self._ensure()
+        if not self.attrs or not self.members:
+            return
+        self._used()
+        attr = self.attrs[a["a"] % len(self.attrs)]
+        j = a["k"][3] % len(self.members)
+        v = self._value(attr, a["u"][0], a["k"][0], [self.mm[j]])
+        setattr(self.members[j], SPECS[attr].member_attr or attr, v)     # member-level setter: trusted
+        self._apply(j, attr, v)
+        self.lab.add("member_edit")
 
     def pre_rename(self):
         return self.group is None or len(self.members) >= 1
@@ -1363,9 +1495,11 @@ Hist.OPS = {
     "observe": lambda: st.just(0),
     "reread": lambda: st.just(0),
     "switch": lambda: st.just(0),
+    "edit": _assign_args(["scalar"]),
+    "edit_b": _assign_args(["scalar"]),
     "connect": lambda: st.fixed_dictionaries({"k": _ks}),
 }
-for _alias, _target in (("assign_b", "assign"), ("assign_c", "assign"), ("assign_d", "assign"),
+for _alias, _target in (("edit_b", "edit"), ("assign_b", "assign"), ("assign_c", "assign"), ("assign_d", "assign"),
                         ("assign_wrong_b", "assign_wrong")):
     setattr(Hist, "do_" + _alias, getattr(Hist, "do_" + _target))
     setattr(Hist, "pre_" + _alias, getattr(Hist, "pre_" + _target))
@@ -1382,6 +1516,7 @@ def _required():
                 out.append("hist:setseq:%s.%s" % (g, a))
                 if SPECS[a].scalar_ok:
                     out.append("hist:setscalar:%s.%s" % (g, a))
+                    out.append("hist:heldscalar:%s.%s" % (g, a))      # scalar = value held by some, not all, members
                 out.append("hist:wrong:%s.%s" % (g, a))
         for kk in rejected_kinds(g):
             out.append("hist:reject:%s.%s" % (g, kk))
@@ -1405,7 +1540,8 @@ def _required():
             # two groups of the same class alive at once / repeated calls
             "hist:second:built", "hist:second:built_before_first_use", "hist:interference",
             "hist:interference:first_group_used_after_second", "hist:repeat:held_results", "hist:repeat:same_call_twice", "hist:ctor:bare",
-            "hist:member:default_pipelines"]
+            "hist:member:default_pipelines",
+            "hist:heldscalar:first", "hist:heldscalar:last", "hist:heldscalar:middle", "hist:seq:current_except_one", "hist:member_edit"]
     if "member:irvb" not in excluded_for("BolometerCamera"):
         out.append("hist:member:irvb")
     return out
